@@ -380,11 +380,11 @@ def normDoc (s : String) : Option String :=
   let w := if w.getLast? == some '.' then w.dropLast else w
   if w.isEmpty then none else some (String.ofList w)
 
-def Param.view (nd : String → Option String) (n : String) (p : Param) : PV :=
-  { name := n, typ := p.typ, default := p.default, doc := p.doc.bind nd }
+def Param.view (n : String) (p : Param) : PV :=
+  { name := n, typ := p.typ, default := p.default, doc := p.doc.bind normDoc }
 
 /-- names in order, types, typed defaults, normalised descriptions; the return entry -/
-def IR.view (nd : String → Option String) (ir : IR) : List PV × Option PV :=
-  (ir.params.map (fun kv => kv.2.view nd kv.1), ir.returns.map (Param.view nd "return_type"))
+def IR.view (ir : IR) : List PV × Option PV :=
+  (ir.params.map (fun kv => kv.2.view kv.1), ir.returns.map (Param.view "return_type"))
 
 end Iface
